@@ -2,7 +2,8 @@
 # usage: mutrun.sh <Cxx[,Cyy]> <tier> <sed-expr> <file-relative-to-repo>   (sensitivity audit helper; always restores /repo)
 # or:    mutrun.sh <Cxx[,Cyy]> <tier> --patch <patchfile>
 props=$1; tier=$2; shift 2
-restore() { git -C /repo checkout -- . ; }
+evbak=$(mktemp -d /tmp/mutrun-ev.XXXXXX); cp /verif/evidence/*.json $evbak/ 2>/dev/null
+restore() { git -C /repo checkout -- . ; cp $evbak/*.json /verif/evidence/ 2>/dev/null; rm -rf $evbak; }
 trap restore EXIT INT TERM
 cd /repo || exit 9
 if [ "$1" == "--patch" ]; then git apply "$2" || { echo "PATCH-FAILED"; exit 9; }
